@@ -270,21 +270,27 @@ theorem patchWf_of_slots (n : Nat) (P : List (Nat × Nat)) (slots : List Slot)
       simp only at hq
       omega
 
-theorem mapM'_ok {α β : Type} (f : α → Except String β) (xs : List α) (h : ∀ x ∈ xs, ∃ r, f x = .ok r) :
-    ∃ rs, mapM' f xs = .ok rs := by
+theorem mapM'_ok {α β : Type} (f : α → Except String β) (Q : β → Prop) (xs : List α) (h : ∀ x ∈ xs, ∃ r, f x = .ok r ∧ Q r) :
+    ∃ rs, mapM' f xs = .ok rs ∧ ∀ r ∈ rs, Q r := by
   induction xs with
-  | nil => exact ⟨[], rfl⟩
+  | nil => exact ⟨[], rfl, by simp⟩
   | cons x xs ih =>
-    obtain ⟨r, hr⟩ := h x (List.mem_cons_self ..)
-    obtain ⟨rs, hrs⟩ := ih (fun y hy => h y (List.mem_cons_of_mem _ hy))
-    exact ⟨r :: rs, by simp only [mapM', hr, hrs]⟩
+    obtain ⟨r, hr, hq⟩ := h x (List.mem_cons_self ..)
+    obtain ⟨rs, hrs, hqs⟩ := ih (fun y hy => h y (List.mem_cons_of_mem _ hy))
+    refine ⟨r :: rs, by simp only [mapM', hr, hrs], ?_⟩
+    intro r' hr'
+    rcases List.mem_cons.mp hr' with e | e
+    · rw [e]; exact hq
+    · exact hqs r' e
 
 /-- song number `i + 1` of the linked bank passes the spec's per-song resolver -/
 theorem songOk_of (l : Linker) (bank : Bytes) (h : getSeqData l = .ok bank) (hnd : l.dataBank.Nodup) (hbl : bank.length < 4294967296)
     (i : Nat) (sd : SeqData) (hs : l.songs[i]? = some sd) (s : SongIn) (hdata : sd.data = s.seq) (hseq0 : 0 < s.seq.length)
     (hA : All2 (SlotServed l) sd.patch s.slots) (hbounds : ∀ sl ∈ s.slots, 2 ≤ sl.addr ∧ sl.addr + 2 ≤ s.seq.length)
     (hdisj : disjointSlots s.slots = true) :
-    ∃ r, songOk bank (getPcmData l) i s = .ok r := by
+    ∃ o es, songOk bank (getPcmData l) i s = .ok (o, o + s.seq.length, es) ∧
+      rd bank (12 + 4 * i) 4 = be32 o ∧ o + s.seq.length + 8 ≤ bank.length ∧
+      (∀ e ∈ es, ∃ idx, entryOffset l idx = some e.1 ∧ l.dataBank[idx]? = some e.2) := by
   have hAddr : All2 (fun q sl => q.1 = sl.addr) sd.patch s.slots := hA.imp (fun _ _ h => h.1)
   have wf : PatchWf sd.data.length sd.patch :=
     patchWf_of_slots _ _ _ hAddr (fun sl hsl => by rw [hdata]; exact (hbounds sl hsl).2) hdisj
@@ -317,7 +323,8 @@ theorem songOk_of (l : Linker) (bank : Bytes) (h : getSeqData l = .ok bank) (hnd
         have := hin sl hsl
         rw [he]; exact this
       rw [← hdata, p2 p hnot]
-  have hslots : ∀ sl ∈ s.slots, ∃ r, slotOk bank (getPcmData l) d sl = .ok r := by
+  have hslots : ∀ sl ∈ s.slots, ∃ r, slotOk bank (getPcmData l) d sl = .ok r ∧
+      ∃ idx, entryOffset l idx = some r.1 ∧ l.dataBank[idx]? = some r.2 := by
     intro sl hsl
     obtain ⟨q, hq, hserved⟩ := hA.mem_right sl hsl
     obtain ⟨t, ht, b1, b2⟩ := p3 q hq
@@ -330,15 +337,15 @@ theorem songOk_of (l : Linker) (bank : Bytes) (h : getSeqData l = .ok bank) (hnd
     rw [hoffs, g1] at ht
     have htt : t' = t := Option.some.inj ht
     subst htt
-    obtain ⟨b, hb, _⟩ := slotOk_of_served l bank d q sl t' _ hserved g2 (List.getElem?_eq_getElem hjl) b1 b2 g5
-    exact ⟨_, hb⟩
-  obtain ⟨es, hes⟩ := mapM'_ok _ _ hslots
+    obtain ⟨b, hb, _, _, hbe⟩ := slotOk_of_served l bank d q sl t' _ hserved g2 (List.getElem?_eq_getElem hjl) b1 b2 g5
+    exact ⟨_, hb, q.2 % 32768, g1, by rw [hbe]; exact List.getElem?_eq_getElem hjl⟩
+  obtain ⟨es, hes, hesq⟩ := mapM'_ok _ _ _ hslots
   unfold songOk
   rw [ho]
   simp only [hlinked]
   rw [if_neg (by omega)]
   simp only [hbody, Bool.not_true, Bool.false_eq_true, if_false, hes]
-  exact ⟨_, rfl⟩
+  exact ⟨o, es, rfl, h1, by omega, hesq⟩
 
 theorem All2.map_right {α β γ : Type} {R : α → β → Prop} {S : α → γ → Prop} (f : β → γ) {as : List α} {bs : List β}
     (h : All2 R as bs) (g : ∀ a b, b ∈ bs → R a b → S a (f b)) : All2 S as (bs.map f) := by
